@@ -451,6 +451,18 @@ pub fn cases_for(plan: &Plan, seed: u64) -> (Vec<(String, History)>, usize) {
         p.valid_add_pct = 75;
         cases.push(("long".into(), generate(hseed, &p)));
     }
+    if plan.long.0 > 0 {
+        // one deep single-client chain (hundreds of versions)
+        let mut p = plan.profile.clone();
+        p.min_clients = 1;
+        p.max_clients = 1;
+        p.min_ops = plan.long.1.max(500);
+        p.max_ops = plan.long.1.max(500);
+        p.valid_add_pct = 96;
+        p.w_kind = [80, 6, 8, 3, 3];
+        p.snapshot_bursts = false;
+        cases.push(("long".into(), generate(base.fork(0x20_0000).next_u64(), &p)));
+    }
     (cases, scope_n)
 }
 
@@ -616,7 +628,8 @@ pub fn plan_for(id: &str, tier: &str) -> Option<Plan> {
         "C11" => {
             p.property = "C11";
             p.mon.snapget = true;
-            p.n_random = n(400, 6000);
+            p.profile.pause_per_10k = 4;
+            p.n_random = n(300, 6000);
             p.profile.w_kind = [45, 5, 35, 10, 5];
             p.profile.valid_add_pct = 80;
             p.required = vec!["getsnapshot:new", "getsnapshot:kept", "getsnapshot:none"];
@@ -626,6 +639,7 @@ pub fn plan_for(id: &str, tier: &str) -> Option<Plan> {
             p.property = "C13";
             p.compare = Compare::Backends;
             p.allowlisted_variant = true;
+            p.profile.pause_per_10k = 4;
             p.kinds = vec![
                 Kind::MEM_LIB,
                 Kind::SQL_LIB,
@@ -635,7 +649,7 @@ pub fn plan_for(id: &str, tier: &str) -> Option<Plan> {
                 Kind::MEM_HTTP,
                 Kind { backend: Backend::Sqlite, entry: Entry::Http, reopen_pct: 40, socket: false },
             ];
-            p.n_random = n(500, 6000);
+            p.n_random = n(350, 6000);
             p.required = vec!["AddSnapshot|", "GetSnapshot|", "|conflict"];
             p.rule = "identical symbolic histories in lock step on in-memory, SQLite and SQLite reopened at 10/50/100% of the gaps (new storage object, schema setup re-run), library and HTTP entries compared within the same entry; responses abstracted by id role and the client record (latest, snapshot version, versions-since) compared after every operation.";
         }
